@@ -199,6 +199,70 @@ pub fn dispatch(k: &str, t: &[&str]) -> Option<String> {
             let out = sp.get(br::<u8>(2)).to_vec();
             Some(format!("{} {}", if res.is_err() { "err" } else { "ok" }, fmt_vec(&out)))
         }
+        "op_exists_u8" | "op_exists_u16" => {
+            let maxg: i64 = num(t[1]);
+            let mut sp = Scratchpad::new(4, HashMap::new());
+            sp.set_const(br::<Scalar<i64>>(1), maxg);
+            let res = if k == "op_exists_u8" {
+                sp.set(br::<u8>(0), vec_of::<u8>(t[0]));
+                let mut op = exists::Exists::<u8> { input: br(0), max_index: br(1), output: br(2) };
+                op.init(0, 16, &mut sp);
+                op.execute(false, &mut sp)
+            } else {
+                sp.set(br::<u16>(0), vec_of::<u16>(t[0]));
+                let mut op = exists::Exists::<u16> { input: br(0), max_index: br(1), output: br(2) };
+                op.init(0, 16, &mut sp);
+                op.execute(false, &mut sp)
+            };
+            let out = sp.get(br::<u8>(2)).to_vec();
+            Some(format!("{} {}", if res.is_err() { "err" } else { "ok" }, fmt_vec(&out)))
+        }
+        "op_compact_i64_u8" => {
+            let mut sp = Scratchpad::new(4, HashMap::new());
+            sp.set(br::<i64>(0), vec_of::<i64>(t[0]));
+            sp.set(br::<u8>(1), vec_of::<u8>(t[1]));
+            let mut op = compact::Compact::<i64, u8> { data: br(0), select: br(1), compacted: br(2) };
+            op.init(0, 16, &mut sp);
+            let res = op.execute(false, &mut sp);
+            let out = sp.get(br::<i64>(2)).to_vec();
+            Some(format!("{} {}", if res.is_err() { "err" } else { "ok" }, fmt_vec(&out)))
+        }
+        "op_nonzero_compact_u32" => {
+            let mut sp = Scratchpad::new(4, HashMap::new());
+            sp.set(br::<u32>(0), vec_of::<u32>(t[0]));
+            let mut op = nonzero_compact::NonzeroCompact::<u32> { data: br(0), compacted: br(2) };
+            op.init(0, 16, &mut sp);
+            let res = op.execute(false, &mut sp);
+            let out = sp.get(br::<u32>(2)).to_vec();
+            Some(format!("{} {}", if res.is_err() { "err" } else { "ok" }, fmt_vec(&out)))
+        }
+        "op_nonzero_compact_nullable_i64" => {
+            let mut sp = Scratchpad::new(4, HashMap::new());
+            sp.set_nullable(br::<Nullable<i64>>(0), vec_of::<i64>(t[0]), vec_of::<u8>(t[1]));
+            let mut op = nonzero_compact::NonzeroCompactNullable::<i64> { data: br(0), compacted: br(2) };
+            op.init(0, 16, &mut sp);
+            let res = op.execute(false, &mut sp);
+            let out = sp.get(br::<i64>(2)).to_vec();
+            Some(format!("{} {}", if res.is_err() { "err" } else { "ok" }, fmt_vec(&out)))
+        }
+        "op_nonzero_indices_u8_i64" => {
+            let mut sp = Scratchpad::new(4, HashMap::new());
+            sp.set(br::<u8>(0), vec_of::<u8>(t[0]));
+            let mut op = nonzero_indices::NonzeroIndices::<u8, i64> { input: br(0), output: br(1), offset: num(t[1]) };
+            op.init(0, 16, &mut sp);
+            let res = op.execute(false, &mut sp);
+            let out = sp.get(br::<i64>(1)).to_vec();
+            Some(format!("{} {} {}", if res.is_err() { "err" } else { "ok" }, fmt_vec(&out), op.offset))
+        }
+        "op_nonzero_nonnull_indices_u32_i64" => {
+            let mut sp = Scratchpad::new(4, HashMap::new());
+            sp.set_nullable(br::<Nullable<u32>>(0), vec_of::<u32>(t[0]), vec_of::<u8>(t[2]));
+            let mut op = nonzero_indices::NonzeroNonnullIndices::<u32, i64> { input: br(0), output: br(1), offset: num(t[1]) };
+            op.init(0, 16, &mut sp);
+            let res = op.execute(false, &mut sp);
+            let out = sp.get(br::<i64>(1)).to_vec();
+            Some(format!("{} {} {}", if res.is_err() { "err" } else { "ok" }, fmt_vec(&out), op.offset))
+        }
         _ => None,
     }
 }
